@@ -54,6 +54,40 @@ static std::string run_ab2(std::istringstream& is) {
 	return line.str();
 }
 
+// ---- the HashMultiMap members whose count / version / returned-position arithmetic is generated (Gen_HashMultiMap.v)
+//   hm op op ...   a,k,v Add   r,k,i Remove(MakeIterator(keyIter, i))   v,k RemoveValues   K,k RemoveKey(iter)   c Clear
+//   D  move the container away and Clear the moved-from object (null crew)
+// per op: "<mValueCount> <valueVersion>[ <index of the returned iterator> <moved?>]"
+static std::string run_hm(std::istringstream& is) {
+	typedef momo::HashMultiMap<int, int64_t> HM;
+	HM m; std::ostringstream line; std::string tok; bool first = true;
+	auto find_movable = [&](int k) { auto km = m.GetKeyBounds().GetBegin(); for (; !!km && km->key != k; ++km) {} return km; };
+	while (is >> tok) {
+		std::vector<long long> a; { std::string t = tok.substr(tok.size() > 1 ? 2 : 1); std::istringstream as(t); std::string x; while (std::getline(as, x, ',')) a.push_back(std::stoll(x)); }
+		std::ostringstream r;
+		switch (tok[0]) {
+		case 'a': m.Add((int)a[0], (int64_t)a[1]); r << m.mValueCount << " " << m.mValueCrew.GetValueVersion(); break;
+		case 'r': { auto km = find_movable((int)a[0]);
+			if (!km || (size_t)a[1] >= km->GetCount()) { r << "skip"; break; }
+			size_t idx = (size_t)a[1];
+			auto it = m.Remove(m.MakeIterator(km, idx));
+			// which pvMakeIterator(key, index, move) is it?  (index recovered from the value pointer when it stayed in the key)
+			auto moved = m.pvMakeIterator(km, idx, true), unmoved = m.pvMakeIterator(km, idx, false);
+			bool isMoved = (it == moved);
+			bool same = (moved == unmoved);
+			r << m.mValueCount << " " << m.mValueCrew.GetValueVersion() << " " << idx << " " << ((isMoved && !same) ? "true" : (same && isMoved) ? "true" : "false");
+			break; }
+		case 'v': { auto km = find_movable((int)a[0]); if (!km) { r << "skip"; break; } m.RemoveValues(km); r << m.mValueCount << " " << m.mValueCrew.GetValueVersion(); break; }
+		case 'K': { auto km = find_movable((int)a[0]); if (!km) { r << "skip"; break; } m.RemoveKey(km); r << m.mValueCount << " " << m.mValueCrew.GetValueVersion(); break; }
+		case 'c': m.Clear(); r << m.mValueCount << " " << m.mValueCrew.GetValueVersion(); break;
+		case 'D': { HM other(std::move(m)); m.Clear(); r << m.mValueCount << " dead " << (m.mValueCrew.IsNull() ? 1 : 0); m = std::move(other); break; }
+		default: r << "?"; break;
+		}
+		line << (first ? "" : "|") << r.str(); first = false;
+	}
+	return line.str();
+}
+
 int main() {
 	std::string line;
 	while (std::getline(std::cin, line)) {
@@ -67,6 +101,7 @@ int main() {
 			b.mPtr = nullptr; }
 		else if (k == "fi") { unsigned which; unsigned long long n; is >> which >> n; size_t M = which == 7 ? 7 : 2;
 			if (!(0 < n && n <= M)) std::cout << "Stuck\n"; else std::cout << (which == 7 ? AB7::pvGetFastMemPoolIndex(n) : AB2::pvGetFastMemPoolIndex(n)) << "\n"; }
+		else if (k == "hm") std::cout << run_hm(is) << "\n";
 		else if (k == "ab2") { size_t M; is >> M;
 			std::cout << (M == 1 ? run_ab2<1>(is) : M == 2 ? run_ab2<2>(is) : M == 7 ? run_ab2<7>(is) : M == 15 ? run_ab2<15>(is) : std::string("?M")) << "\n"; }
 		else std::cout << "?\n";
